@@ -7,7 +7,8 @@ import subprocess
 import sys
 
 VERIF = os.path.dirname(os.path.dirname(os.path.abspath(__file__)))
-EXTRA = {"C01-b": ["C01", "C13"], "C06-a": ["C06", "C16"], "C08-a": ["C08", "C03"], "C14-a": ["C14"], "C15-a": ["C15", "C14"],
+EXTRA = {"C02-d": ["C02", "C05"], "C06-d": ["C06", "C05"], "C10-d": ["C10", "C05"], "C17-c": ["C17", "C19"],
+         "C01-b": ["C01", "C13"], "C06-a": ["C06", "C16"], "C08-a": ["C08", "C03"], "C14-a": ["C14"], "C15-a": ["C15", "C14"],
          "C02-b": ["C02", "C17"], "C11-b": ["C11", "C14"]}
 
 for src in sys.argv[1:]:
